@@ -864,6 +864,11 @@ func dfsConfigs() []struct {
 			out = append(out, cb{Config{P: 1, W: 3, Size: 2, Poller: poller, Writer: "yields", Early: true}, 2}, cb{Config{P: 1, W: 4, Size: 3, Poller: poller, Writer: "yields", Early: true}, 2})
 		}
 	}
+	if prop == "C11" && !ev.Thorough() {
+		// two producers a lap apart on a ring of two, Close right behind them (in the thorough tier this
+		// configuration is part of the general list)
+		out = append(out, cb{Config{P: 2, W: 2, Size: 2, Poller: true, Writer: "returns", Early: true}, 2}, cb{Config{P: 2, W: 2, Size: 2, Writer: "returns", Early: true}, 2})
+	}
 	if prop == "C11" {
 		// Close arriving while the consumer is inside the wrapped writer with the last message, the ring empty behind it
 		for _, poller := range []bool{false, true} {
